@@ -7,7 +7,9 @@ from lib import vsa, vsa_expr as vx, vsa_sets
 
 PROP = "C24"
 P = "Claripy.Props.C24."
-THEOREMS = [P + n for n in ("C24_convert_sound", "C24_bool_sound", "C24_if_join", "C24_light_eval_over", "name_eq_unsound")]
+L = "Claripy.VSA."
+THEOREMS = [P + n for n in ("C24_convert_sound", "C24_bool_sound", "C24_if_join", "C24_light_min_max_over")] + \
+           [L + n for n in ("convBV_good", "convB_good", "new_WF", "top_WF", "const_mem", "mem_integer", "brAnd_has", "brOr_has", "iteB_has")]
 TESTS = [P + "test_eval_example"]
 
 
